@@ -1,11 +1,21 @@
 (* Extract/C07.v — OCaml extraction of the UEFI core model plus the extract / reload model. *)
-From Fiano Require Import Base.Bytes Model.Ffs Model.Extract Model.TightenMe Model.FlashImage Model.ExtractFlash.
+From Fiano Require Import Base.Bytes Model.Ffs Model.Extract Model.TightenMe Model.FlashImage Model.ExtractFlash
+  Model.Nvar Model.ExtractNvar.
 Require Extraction.
 Require Import ExtrOcamlBasic.
 Extraction Language OCaml.
+(* the NVAR directory model with the concrete UTF-16 transformer of Model/Nvar.v *)
+Definition c7_nv_paths (pol : Z) (d : nat) (b : bytes) : outcome (list (bytes * bytes)) :=
+  do s <- parse_store dec16_impl pol b;
+  do f <- nv_extract d [] s;
+  Ok (map (fun x => (render_nvpath (fst x), snd x)) f).
+Definition c7_nv_dir_save (pol : Z) (d : nat) (b : bytes) : outcome bytes :=
+  nv_dir_save dec16_impl enc16_impl pol d b.
+
 Extraction "../ocaml/c07/model.ml" parse_region save_region parse_fv parse_file parse_section
   asm asm_bios node_buf create_pad_file
   extract extract_list extract_region reload reload_list json_project render_path
   dir_save dir_save_tree extract_paths save_projected
   paths_okb_list wf_treeb_list nodupb keys guid_string guid_parse
-  flash_layout bios_tree flash_dir_save flash_extract_paths flash_save_twice_image.
+  flash_layout bios_tree flash_dir_save flash_extract_paths flash_save_twice_image
+  c7_nv_paths c7_nv_dir_save.
